@@ -72,12 +72,13 @@ def runReveal (payload : String) : String × String × String :=
     | .stk _ root =>
       if !beqV (flat H h) t then ("BADFLAT", "BADFLAT", "") else
       let spec := specPart t true true
-      match Reveal revealFuel H root with
-      | .error .panic => ("PANIC", spec, "panic")
-      | .error .deadlock => ("DEADLOCK", spec, "deadlock")
-      | .error .fuel => ("FUEL", spec, "fuel")
-      | .ok s =>
-        let t' := flat s.heap h
+      match Reveal revealFuel H root, RevealTree revealFuel t with
+      | .error .panic, _ => ("PANIC", spec, "panic")
+      | .error .deadlock, _ => ("DEADLOCK", spec, "deadlock")
+      | .error .fuel, _ => ("FUEL", spec, "fuel")
+      | .ok _, .error _ => ("FUEL", spec, "fuel")
+      | .ok s, .ok t' =>
+        -- `t'` is the tree the theorems `C20_tree` speak about; `s` is only read for the lock order
         let locks := s.trace.reverse.map (nodeId s.heap)
         let chg := !beqV t t'
         (s!"{specPart t' (decide (depth t' ≤ depth t)) (reachable t t')} ; T {showV t'} ; X {joinOrDash locks}",
